@@ -103,6 +103,12 @@ func (g *G) genContacts() {
 				c.Fields[f.Key] = []string{"male", "female", "x", strings.Repeat("é", 300)}[t.Weighted("ftext", 3, 3, 1, 1)]
 			case "number":
 				c.Fields[f.Key] = []string{"7", "18", "10", "-3.5", "1000000", "12 years"}[t.Pick("fnum", 6)]
+				if t.Chance("untyped_number", 1, 4) {
+					if c.Untyped == nil {
+						c.Untyped = map[string]bool{}
+					}
+					c.Untyped[f.Key] = true
+				}
 			case "datetime":
 				c.Fields[f.Key] = []string{"2020-02-29T00:00:00Z", "2019-12-31T23:59:59.999999-05:00", "2020-01-01T00:00:00+02:00"}[t.Pick("fdate", 3)]
 			case "state":
@@ -192,8 +198,8 @@ func (s *Scenario) ContactJSON(c *ContactSpec, set int) J {
 			switch f.Type {
 			case "number":
 				var x float64
-				if _, err := fmt.Sscanf(v, "%g", &x); err == nil && !strings.Contains(v, " ") {
-					fv["number"] = v
+				if _, err := fmt.Sscanf(v, "%g", &x); err == nil && !strings.Contains(v, " ") && !c.Untyped[k] {
+					fv["number"] = v // (values stored before the field was typed have their text only)
 				}
 			case "datetime":
 				fv["datetime"] = v
